@@ -103,7 +103,7 @@ def run(ctx):
                  "finalise_block does not call %s on every success path" % m)
         for a, b in zip(order, order[1:]):
             if a in pos and b in pos:
-                R.ob(f.dominates(pos[a].bb, pos[b].bb) and pos[a].bb != pos[b].bb, "DOM-order", pos[b].where(), "DOM-order|finalise|%s<%s" % (a, b),
+                R.ob(f.sdominates(pos[a].bb, pos[b].bb) and pos[a].bb != pos[b].bb, "DOM-order", pos[b].where(), "DOM-order|finalise|%s<%s" % (a, b),
                      "%s is not preceded by %s: the block hash must become visible last" % (b, a), sample={"rule": "DOM-order", "first": a, "then": b})
         # the same block number / hash flow to all
         for m in ("set_block", "set_raw_block", "clear_txpool", "set_block_hash", "generate_block"):
@@ -125,7 +125,7 @@ def run(ctx):
         wf = [c for c in f.calls() if (c.method or "") == "write_fn" and not f.is_cleanup(c.bb)]
         wu = [c for c in f.calls() if (c.method or "") == "write_fn_unchecked" and not f.is_cleanup(c.bb)]
         nt = [c for c in f.calls() if (c.method or "") == "notify_waiters" and not f.is_cleanup(c.bb)]
-        R.ob(bool(wf) and bool(wu) and bool(nt) and f.dominates(wf[0].bb, wu[0].bb) and f.dominates(wu[0].bb, nt[0].bb), "DOM-order", f.where(),
+        R.ob(bool(wf) and bool(wu) and bool(nt) and f.sdominates(wf[0].bb, wu[0].bb) and f.sdominates(wu[0].bb, nt[0].bb), "DOM-order", f.where(),
              "DOM-order|finalise|db<reset<notify", "finalise_block must store the block, then reset the unfinished-block info, then notify",
              sample={"rule": "DOM-order", "fn": "finalise_block", "order": "db.write_fn < last_block_info reset < notify"})
     # 3. counters together
